@@ -316,7 +316,13 @@ func isBackEdge(from, to *ssa.BasicBlock) bool { return to.Dominates(from) }
 func (fr *Frame) run(reach string, st *State, args []*Val) {
 	fn := fr.fn
 	u := fr.u
+	pre := fr.vals
 	fr.vals = map[ssa.Value]*Val{}
+	for k, v := range pre {
+		if _, ok := k.(*ssa.FreeVar); ok {
+			fr.vals[k] = v // captured variables named by the closure's own contract
+		}
+	}
 	fr.reach = map[int]string{}
 	fr.exitSt = map[int]*State{}
 	fr.edge = map[[2]int]string{}
